@@ -8,7 +8,7 @@ use crate::proto::Ctx;
 pub fn meta() -> Meta {
     Meta {
         level: "model_checking",
-        rule: "every history of depth d (quick 4, thorough 5) over 13 actions on three handle registers (5 kind-specific operations, clone, 2 drops, gc, add_vars+new variable, reverse/rotate reordering, drop on another thread) for bdd, bcdd, zbdd, mtbdd, tdd on a fresh manager per history, with an ample (64) and a tight (12-node, operations may fail with OutOfMemory) node store; after every step the structural auditor runs over Manager::levels()/get_node (children strictly below, listed level = reported level, kind's reduction rule, then-edge uncomplemented, no duplicate (level, children), var/level maps inverse permutations, num_inner_nodes = listed nodes) and node_count(handle) must equal the size of the unique reduced diagram computed from the model table under the current order.  Additionally, per kind {bdd,bcdd,zbdd} and each of the 6 orders of 3 variables: the whole operation alphabet (not, cofactors, 8 connectives, ite, restrict/pick_cube_dd_set for all 27 cubes, pick_cube_dd, quantifiers, apply-and-quantify, substitution; ZBDD: subset0/1, change, union, intsec, diff) on all 256 functions: node_count of every result = size of the unique reduced diagram of the table it denotes, and after every batch of operations (before any collection) the auditor accepts everything stored. states = distinct model states, transitions = audited steps.",
+        rule: "every history of depth d (quick 4, thorough 5) over 13 actions on three handle registers (5 kind-specific operations, clone, 2 drops, gc, add_vars+new variable, reverse/rotate reordering, drop on another thread) for bdd, bcdd, zbdd, mtbdd, tdd on a fresh manager per history, with an ample (64) and a tight (12-node, operations may fail with OutOfMemory) node store; after every step the structural auditor runs over Manager::levels()/get_node (children strictly below, listed level = reported level, kind's reduction rule, then-edge uncomplemented, no duplicate (level, children), var/level maps inverse permutations, num_inner_nodes = listed nodes) and node_count(handle) must equal the size of the unique reduced diagram computed from the model table under the current order.  Additionally, per kind {bdd,bcdd,zbdd} and each of the 6 orders of 3 variables: the whole operation alphabet (not, cofactors, 8 connectives, ite, restrict/pick_cube_dd_set for all 27 cubes, pick_cube_dd, quantifiers, apply-and-quantify, substitution; ZBDD: subset0/1, change, union, intsec, diff) on all 256 functions: node_count of every result = size of the unique reduced diagram of the table it denotes, and after every batch of operations (before any collection) the auditor accepts everything stored. Also: every single adjacent swap through the public `level_down` (n = 4, every level, dense and sparse live sets incl. single variables) and the concurrent reordering of sparse live sets (C08's `leveldown4` / `csparse4` cases) followed by the same auditor. states = distinct model states, transitions = audited steps.",
         assumptions: vec![
             "DDDMP import as a history step is exercised by C15's audit after import, add_named_vars by C16".into(),
             "index backend (pointer backend: C20)".into(),
@@ -22,6 +22,13 @@ const KINDS: [&str; 5] = ["bdd", "bcdd", "zbdd", "mtbdd", "tdd"];
 
 pub fn shards(tier: &str) -> Vec<String> {
     let mut v = super::allops::shards(tier);
+    // structure after single adjacent swaps (public level_down, dense and sparse live sets) and after the
+    // concurrent reordering of sparse live sets: C08's cases, judged by the same structural auditor
+    for s in super::c08::shards(tier) {
+        if s.contains(":leveldown4:") || s.contains(":csparse4:") {
+            v.push(format!("reord:{s}"));
+        }
+    }
     v.extend(hist::shards_for(&["mtbddf", "mtbddc", "zbdds"], &["n64c16t1"], if tier == "thorough" { 2 } else { 1 }));
     if tier == "thorough" {
         v.extend(hist::shards_for(&KINDS, &["n64c16t1", "n12c16t1", "n64c1t2"], 2));
@@ -32,6 +39,10 @@ pub fn shards(tier: &str) -> Vec<String> {
 }
 
 pub fn run(ctx: &mut Ctx) {
+    if let Some(rest) = ctx.shard.clone().strip_prefix("reord:") {
+        ctx.shard = rest.to_string();
+        return super::c08::run(ctx);
+    }
     if ctx.shard.starts_with("allops:") {
         return super::allops::run(ctx, "C03");
     }
